@@ -65,7 +65,16 @@ func (s *Scope) Reset(u *Scope) {
 		atomic.StorePointer(&s.storage, unsafe.Pointer(nil))
 	} else {
 		for _, m := range metrics {
-			s.store(m, u.load(m))
+			inst := u.load(m)
+			if inst == nil {
+				s.store(m, nil)
+				continue
+			}
+			// Copy the instance: sharing it would make later updates of
+			// one scope appear in the other.
+			copied := m.newInstance()
+			m.merge(copied, inst)
+			s.store(m, copied)
 		}
 	}
 }
